@@ -160,6 +160,7 @@ func replayCLI(args []string) error {
 	defer os.RemoveAll(dir)
 	rep := &vx.Report{}
 	n := 0
+	srng := rand.New(rand.NewSource(int64(*stride)*7919 + 3))
 	vrng := rand.New(rand.NewSource(int64(*stride) + 17)) // which cases run with -v: independent of the enumeration order
 	err := vx.ReadLines(*in, func(line []byte) error {
 		var c cliCase
@@ -173,7 +174,7 @@ func replayCLI(args []string) error {
 			return nil
 		}
 		n++
-		if n%*stride != 0 {
+		if *stride > 1 && srng.Intn(*stride) != 0 { // a random 1/stride sample: a fixed step would alias with the enumeration order
 			return nil
 		}
 		rep.Behaviours++
